@@ -128,7 +128,7 @@ package load
 // the two divisions are by the configured bucket count and bucket duration: a configuration with buckets <= 0 or
 // a window shorter than one nanosecond per bucket panics at construction (as NewRollingWindow does by design for
 // a size < 1); construction with such options is outside C09's claim, so division by zero is not an obligation here
-//@   safety bounds
+//@   safety -divzero
 //@   opaque newNopShedder, NewAtomicDuration, NewAtomicBool, NewRollingWindow, IgnoreCurrentBucket, True
 //@   loop 1 invariant -1 <= rangeindex && rangeindex < len(opts) && (rangeindex == -1 ==> options.window == 5000000000 && options.buckets == 50 && options.cpuThreshold == 900)
 //@   let sh = unbox(result, ptr(adaptiveShedder))
